@@ -48,7 +48,7 @@ var fnWhitelist = map[string][]string{
 		"Info.Validate", "Export.Validate", "isContainedIn", "Exports.Validate", "Exports.HasExportContainingSubject", "Mapping.Validate",
 		"CreateValidationResults", "ResponsePermission.Validate", "Permissions.Validate",
 		"OperatorLimits.IsEmpty", "OperatorLimits.Validate", "ExternalAuthorization.Validate",
-		"UserScope.Validate", "SigningKeys.Validate", "Account.Validate", "AccountClaims.Validate", "GenericClaims.Validate", "AuthorizationRequestClaims.Validate", "AuthorizationResponseClaims.Validate", "TimeRange.Validate", "Limits.Validate", "User.Validate", "UserClaims.Validate", "ParseServerVersion", "Operator.validateAccountServerURL", "ValidateOperatorServiceURL", "Operator.validateOperatorServiceURLs", "Operator.Validate", "OperatorClaims.Validate", "OperatorClaims.ExpectedPrefixes", "AccountClaims.ExpectedPrefixes", "UserClaims.ExpectedPrefixes", "ActivationClaims.ExpectedPrefixes", "AuthorizationRequestClaims.ExpectedPrefixes", "AuthorizationResponseClaims.ExpectedPrefixes", "GenericClaims.ExpectedPrefixes", "loadClaims", "ClaimsData.verify", "parseHeaders", "Decode", "v1OperatorClaims.migrateV1", "v1UserClaims.migrateV1", "v1ActivationClaims.migrateV1", "SigningKeys.Add", "v1AccountClaims.migrateV1", "UserClaims.Encode", "ActivationClaims.Encode", "OperatorClaims.Encode", "AccountClaims.Encode", "GenericClaims.Encode", "AuthorizationRequestClaims.Encode", "AuthorizationResponseClaims.Encode", "OperatorClaims.updateVersion", "AccountClaims.updateVersion", "UserClaims.updateVersion", "ActivationClaims.updateVersion", "AuthorizationRequestClaims.updateVersion", "AuthorizationResponseClaims.updateVersion", "DecodeOperatorClaims", "DecodeAccountClaims", "DecodeUserClaims", "DecodeAuthorizationRequestClaims", "DecodeAuthorizationResponseClaims", "UserScope.ValidateScopedSigner", "NewUserClaims", "UserClaims.SetScoped", "UserScope.SigningKey", "SigningKeys.AddScopedSigner", "SigningKeys.GetScope", "SigningKeys.Remove", "SigningKeys.Keys",
+		"UserScope.Validate", "SigningKeys.Validate", "Account.Validate", "AccountClaims.Validate", "GenericClaims.Validate", "AuthorizationRequestClaims.Validate", "AuthorizationResponseClaims.Validate", "TimeRange.Validate", "Limits.Validate", "User.Validate", "UserClaims.Validate", "ParseServerVersion", "Operator.validateAccountServerURL", "ValidateOperatorServiceURL", "Operator.validateOperatorServiceURLs", "Operator.Validate", "OperatorClaims.Validate", "OperatorClaims.ExpectedPrefixes", "AccountClaims.ExpectedPrefixes", "UserClaims.ExpectedPrefixes", "ActivationClaims.ExpectedPrefixes", "AuthorizationRequestClaims.ExpectedPrefixes", "AuthorizationResponseClaims.ExpectedPrefixes", "GenericClaims.ExpectedPrefixes", "loadClaims", "ClaimsData.verify", "parseHeaders", "Decode", "v1OperatorClaims.migrateV1", "v1UserClaims.migrateV1", "v1ActivationClaims.migrateV1", "SigningKeys.Add", "v1AccountClaims.migrateV1", "UserClaims.Encode", "ActivationClaims.Encode", "OperatorClaims.Encode", "AccountClaims.Encode", "GenericClaims.Encode", "AuthorizationRequestClaims.Encode", "AuthorizationResponseClaims.Encode", "OperatorClaims.updateVersion", "AccountClaims.updateVersion", "UserClaims.updateVersion", "ActivationClaims.updateVersion", "AuthorizationRequestClaims.updateVersion", "AuthorizationResponseClaims.updateVersion", "DecodeOperatorClaims", "DecodeAccountClaims", "DecodeUserClaims", "DecodeAuthorizationRequestClaims", "DecodeAuthorizationResponseClaims", "UserScope.ValidateScopedSigner", "NewUserClaims", "UserClaims.SetScoped", "UserScope.SigningKey", "SigningKeys.AddScopedSigner", "SigningKeys.GetScope", "SigningKeys.Remove", "SigningKeys.Keys", "DecodeGeneric",
 	},
 	"V1": {
 		"Subject.HasWildCards", "Subject.IsContainedIn", "cleanSubject",
@@ -1794,10 +1794,13 @@ func (c *fnCtx) store(b *block, l ast.Expr, v string) {
 		}
 		unsup("store to selector")
 	case *ast.IndexExpr:
-		if _, ok := c.typeOf(x.X).Underlying().(*types.Map); ok {
+		if mt, ok := c.typeOf(x.X).Underlying().(*types.Map); ok {
 			m, k := c.expr(x.X), c.expr(x.Index)
 			if m.m {
 				unsup("partial map store")
+			}
+			if c.g.leanType(mt.Elem()) == "Unit" {
+				v = "()" // values of type interface{} are not modelled: only which keys are present
 			}
 			ks := k.s
 			if k.m {
@@ -2412,9 +2415,9 @@ func (c *fnCtx) assign(b *block, x *ast.AssignStmt) {
 	// err := json.Unmarshal(data, &x): x is replaced by what the (opaque) decoder of its type makes of it
 	if call, ok := x.Rhs[0].(*ast.CallExpr); ok && selName(call.Fun) == "json.Unmarshal" && len(call.Args) == 2 {
 		if ue, ok := call.Args[1].(*ast.UnaryExpr); ok && ue.Op == token.AND {
-			if n, ok := c.typeOf(ue.X).(*types.Named); ok && n.Obj().Pkg() == c.g.p.Types {
-				q := "json.Unmarshal" + n.Obj().Name()
-				lt := c.g.leanType(n)
+			if _, isSt := c.typeOf(ue.X).Underlying().(*types.Struct); isSt {
+				lt := c.g.leanType(c.typeOf(ue.X))
+				q := "json.Unmarshal" + strings.TrimPrefix(lt, "T_")
 				foreignOpaque[q] = "(List Int) → " + lt + " → (" + lt + " × Bool)"
 				if c.g.foreign == nil {
 					c.g.foreign = map[string]bool{}
